@@ -55,12 +55,109 @@ def irshadow_unit(*files, modules=None):
     }
 
 
+def solve_unit(*files):
+    return {
+        "name": "solve",
+        "kind": "external",
+        "dir": "harness/solve",
+        "files": list(files),
+        "modules": {f: os.path.splitext(os.path.basename(f))[0] for f in files},
+    }
+
+
 def ir_unit(*files):
     return dict(IR_UNIT, files=list(files),
                 modules={f: os.path.splitext(os.path.basename(f))[0].replace("_classes", "") for f in files})
 
 
 PROPS = {
+    "C28": {
+        "units": [ir_unit("harness/ir/src/c28.rs")],
+        "claim": "UCanonical::trivial_substitution (what both solvers return for 'holds for every value of the "
+                 "unknowns' and for floundered answers) has exactly one entry per unknown of the query, of the unknown's "
+                 "kind, referring to that unknown only; Substitution::is_identity_subst and "
+                 "UCanonical::is_trivial_substitution coincide with that definition for arbitrary variable entries.",
+        "bounds": "queries with three unknowns; kinds (general / integer type, lifetime, const) fixed per query, "
+                  "universes and the (depth, index) of every entry symbolic at full width; unwind 8",
+        "outside": "that the SOLVERS return such substitutions for every program and goal (root_answer, Fulfill::solve, "
+                   "make_solution run the engines and the inference table; DESIGN.md §4.1, P30); universes of returned "
+                   "answers (map_from_canonical is covered under C16)",
+        "assumptions": [],
+        "stubs": [],
+        "trusted_base": VINTERNER_TB,
+        "harness_note_default": "arity / kind / scope of the trivial substitution; exactness of is_identity_subst",
+        "level_text": "Bounded model checking (Kani/CBMC) of the real constructors and predicates for the solution "
+                      "shape; partial with respect to the property (no solver run).",
+        "level_note": "Trusted: Kani/CBMC; VInterner.",
+        "design_ref": "DESIGN.md §4.7",
+    },
+    "C29": {
+        "units": [ir_unit("harness/ir/src/c29.rs")],
+        "claim": "The variance machinery every relater goes through: Variance::xform is the sign product and invert "
+                 "the negation (all 27 triples); Zipper::zip_substs relates position i at ambient.xform(declared[i]) "
+                 "(Invariant when nothing is declared), each pair once and in order, for all ambient / declared "
+                 "variances; Zip for FnSubst relates parameters contravariantly and the return type covariantly.",
+        "bounds": "argument lists [ty, lifetime, ty]; three declared variances; fn(T0, T1) -> T2; all variance values symbolic; unwind 8",
+        "outside": "Unifier::relate_ty_ty / push_lifetime_outlives_goals composing these over real types and emitting "
+                   "the outlives goals (InferenceTable::relate does not finish under CBMC, DESIGN.md P18); "
+                   "SubtypeGoal handling in the engines",
+        "assumptions": [],
+        "stubs": [],
+        "trusted_base": VINTERNER_TB + ["harness-side recording Zipper"],
+        "harness_note_default": "variance observed by a recording zipper equals the variance table's value",
+        "level_text": "Bounded model checking (Kani/CBMC) of the real variance algebra and of the zip_substs / FnSubst "
+                      "zipping code with all variances symbolic; partial with respect to the property (the unifier "
+                      "itself is out of reach).",
+        "level_note": "Trusted: Kani/CBMC; VInterner; the sign-product reading of the variance table.",
+        "design_ref": "DESIGN.md §4.7",
+    },
+    "C13": {
+        "units": [solve_unit("harness/solve/src/c13.rs")],
+        "claim": "Solution::combine (chalk-solve/src/solve.rs), the operation documented as independent of argument "
+                 "order through which the recursive solver merges the solutions of different clauses: for all 8 x 8 "
+                 "pairs of candidate kinds (Unique trivially-true / with a constraint / ground, Definite identity / "
+                 "ground, Suggested ground / identity, Unknown) and all ids, combine(a, b) == combine(b, a), "
+                 "combine(a, a) == a, and the result is Unique / Definite(s) / Suggested(s) only when the candidates "
+                 "support it.",
+        "bounds": "one-variable canonical substitutions (identity or ground with symbolic id), at most one lifetime "
+                  "constraint; unwind 10",
+        "outside": "declaration-order independence of WHOLE solves (program lowering, clause enumeration, "
+                   "merge_into_guidance's arrival order, the engines) - those need solver runs, which do not finish "
+                   "under CBMC (DESIGN.md §4.1); this check decides only the commutativity of the combination step",
+        "assumptions": ["both candidates are canonical over the same binder list"],
+        "stubs": ["tracing, tracing-attributes: no-op stub crates via [patch.crates-io]"],
+        "trusted_base": VINTERNER_TB,
+        "harness_note_default": "combine(a,b)==combine(b,a); result never stronger than the candidates; ids symbolic",
+        "level_text": "Bounded model checking (Kani/CBMC) of the real Solution::combine for every pair of candidate "
+                      "kinds with symbolic ids. Partial with respect to the property: only the combination step, the "
+                      "one place the code documents order independence.",
+        "level_note": "Trusted: Kani/CBMC; VInterner. The property's main quantifier (permutations of program items) is "
+                      "outside: stated in the evidence.",
+        "design_ref": "DESIGN.md §4.5",
+    },
+    "C16": {
+        "units": [solve_unit("harness/solve/src/c16.rs")],
+        "claim": "Universe compression: UniverseMap::add keeps the universe list strictly sorted and duplicate-free; "
+                 "map_universe_to_canonical is defined exactly on members, strictly monotone and onto 0..n; "
+                 "map_universe_from_canonical inverts it and maps out-of-range canonical universes above every member "
+                 "in order; InferenceTable::u_canonicalize on substitutions of two placeholder leaves of every sort "
+                 "(type, lifetime, const) in arbitrary universes produces dense, order-preserving canonical universes, "
+                 "and UniverseMapExt::map_from_canonical gives the original value back.",
+        "bounds": "three universes added to the map in any order (full usize values); substitutions of two placeholder "
+                  "leaves, sorts fixed per query, universes and indices symbolic (full usize); unwind 8",
+        "outside": "Canonicalizer (first-occurrence numbering through the ena union-find table), instantiate_canonical, "
+                   "invert: they need an InferenceTable, whose ena tables live on the untyped heap (DESIGN.md P30); "
+                   "values deeper than a leaf",
+        "assumptions": ["placeholders live in non-root universes"],
+        "stubs": ["tracing, tracing-attributes: no-op stub crates via [patch.crates-io]"],
+        "trusted_base": VINTERNER_TB,
+        "harness_note_default": "universe compression: sorted/dense/order-preserving and invertible; symbolic universes",
+        "level_text": "Bounded model checking (Kani/CBMC) of the real universe-map code and of the u_canonicalize / "
+                      "map_from_canonical folders on placeholder leaves, universes fully symbolic. Partial: the "
+                      "variable-numbering half of the property needs the inference table and is outside.",
+        "level_note": "Trusted: Kani/CBMC (incl. its Vec model); VInterner.",
+        "design_ref": "DESIGN.md §4.7",
+    },
     "C27": {
         "units": [irshadow_unit("harness/irshadow/c27.rs",
                                 modules={"harness/irshadow/c27.rs": "fold::in_place::verif_c27"})],
